@@ -278,6 +278,9 @@ func parseE(text string) (ev event, err error) {
 	if ev.kind == "CALLS" {
 		ev.kind, ev.sync = "CALL", true
 	}
+	if ev.kind == "BPUBS" {
+		ev.kind, ev.sync = "BPUB", true
+	}
 	switch ev.kind {
 	case "CALL":
 		f := strings.Split(arg, " ")
@@ -445,6 +448,7 @@ type link struct {
 	// preempted caller): whatever the caller does after its send - arming a
 	// timer, storing a transaction - happens after the reply was handled.
 	syncOn  bool
+	syncGw  bool            // BPUBS: the same for the writes of the gateway session
 	blocked []chan struct{} // writers waiting to be let go (by the driver, at quiescence)
 }
 
@@ -476,7 +480,19 @@ func newLink(faultsC2G, faultsG2C string, tr *trace) *link {
 			<-ch
 		}
 	}
-	l.gw.OnWrite = func(b []byte) { l.transfer(g2c, l.cl, b, tr) }
+	l.gw.OnWrite = func(b []byte) {
+		l.transfer(g2c, l.cl, b, tr)
+		l.mu.Lock()
+		var ch chan struct{}
+		if l.syncGw {
+			ch = make(chan struct{})
+			l.blocked = append(l.blocked, ch)
+		}
+		l.mu.Unlock()
+		if ch != nil {
+			<-ch
+		}
+	}
 	return l
 }
 
@@ -515,10 +531,30 @@ func (l *link) hold() {
 	l.mu.Unlock()
 }
 
+// waitIfSync blocks the calling writer while the synchronous link is on.
+func (l *link) waitIfSync() {
+	l.mu.Lock()
+	var ch chan struct{}
+	if l.syncOn {
+		ch = make(chan struct{})
+		l.blocked = append(l.blocked, ch)
+	}
+	l.mu.Unlock()
+	if ch != nil {
+		<-ch
+	}
+}
+
 // setSync switches the synchronous link on or off.
 func (l *link) setSync(on bool) {
 	l.mu.Lock()
 	l.syncOn = on
+	l.mu.Unlock()
+}
+
+func (l *link) setSyncGw(on bool) {
+	l.mu.Lock()
+	l.syncGw = on
 	l.mu.Unlock()
 }
 
@@ -582,12 +618,19 @@ type broker struct {
 	inQoS2  map[uint16]bool  // QoS 2 PUBLISHes of the gateway for which no PUBREL has come yet
 	nextMID uint16           // message ID of the next routed PUBLISH with qos > 0
 	closed  bool             // the broker closed the connection (DISCONNECT)
+
+	afterWrite func() // set by the driver: runs in the gateway's writer goroutine after the broker has answered
 }
 
 func newBroker(tr *trace) *broker {
 	b := &broker{conn: memconn.NewStream(), tr: tr, inQoS2: map[uint16]bool{}, nextMID: 1000}
 	b.conn.EarlyDeadline = true
-	b.conn.OnWrite = b.received
+	b.conn.OnWrite = func(data []byte) {
+		b.received(data)
+		if b.afterWrite != nil {
+			b.afterWrite() // the synchronous link: the gateway's writer waits until the broker's answers are handled
+		}
+	}
 	b.conn.OnClose = func() { tr.obs("BRCLOSE") }
 	return b
 }
@@ -781,6 +824,10 @@ func runHistory(h history, tr *trace) {
 
 	lk := newLink(h.c2g, h.g2c, tr)
 	br := newBroker(tr)
+	// br.afterWrite = lk.waitIfSync is deliberately NOT set: with the gateway's writes to the broker synchronous the
+	// broker's close after DISCONNECT ends the session before the gateway has answered the client, and in lossy
+	// histories the order of the datagrams of one instant (hence the fault positions) differs from the model's pump
+	// order - schedule effects outside the event-atomic model (DESIGN.md, Limits).
 
 	var waiting atomic.Int32 // goroutines of the driver that are inside the client or the gateway
 	spawn := func(f func()) {
@@ -849,7 +896,20 @@ func runHistory(h history, tr *trace) {
 				lk.letGo()
 			}
 		case "BPUB":
+			if ev.sync {
+				lk.setSyncGw(true)
+			}
 			br.publish(ev.pub)
+			if ev.sync {
+				for i := 0; i < 1000; i++ {
+					synctest.Wait()
+					if !lk.letGo() {
+						break
+					}
+				}
+				lk.setSyncGw(false)
+				lk.letGo()
+			}
 		case "BBURST":
 			lk.hold()
 			for _, p := range ev.pubs {
